@@ -84,11 +84,39 @@ def rule_pairs(chk):
         chk.bad("C04.pair", "current_action:reads-the-context-variable", chk.where(ca), why)
         return
     uses = var_uses(chk, var)
-    sets = [(f, c) for f, n, k, c in uses if k == "set"]
-    resets = [(f, c) for f, n, k, c in uses if k == "reset"]
+    sets = [(f, c, c.args[0] if len(c.args) == 1 else None) for f, n, k, c in uses if k == "set"]
+    resets = [(f, c, c.args[0] if len(c.args) == 1 else None) for f, n, k, c in uses if k == "reset"]
+    # thin private wrappers: `def push(a): return <var>.set(a)` / `def pop(t): <var>.reset(t)` -- their call sites are the set / reset sites
+    wrappers = {}
+    for kind, lst in (("set", sets), ("reset", resets)):
+        for f, c, _a in list(lst):
+            if f.cls is not None and f.pos_params[:1] == ["self"]:
+                fparams = f.pos_params[1:]
+            else:
+                fparams = f.pos_params
+            body = [st for st in f.node.body if not (isinstance(st, ast.Expr) and isinstance(st.value, ast.Constant))]
+            if len(c.args) == 1 and isinstance(c.args[0], ast.Name) and c.args[0].id in fparams and len(body) == 1 and not stores_to_name(f, c.args[0].id):
+                st = body[0]
+                is_wrapper = (kind == "set" and isinstance(st, ast.Return) and st.value is c) or (kind == "reset" and isinstance(st, (ast.Expr, ast.Return)) and st.value is c)
+                if is_wrapper:
+                    wrappers[f] = (kind, f.pos_params.index(c.args[0].id))
+                    lst.remove((f, c, _a))
+    for f in ctx.p.all_funcs():
+        for s_ in ctx.cg.sites.get(f, []):
+            if s_.call is None:
+                continue
+            tg = s_.repo_targets()
+            if tg and all(t in wrappers for t in tg) and len({wrappers[t] for t in tg}) == 1:
+                kind, idx = wrappers[tg[0]]
+                c = s_.call
+                # bound-method call: the receiver takes parameter 0
+                implicit = isinstance(c.func, ast.Attribute) and tg[0].cls is not None
+                ai = idx - (1 if implicit else 0)
+                if 0 <= ai < len(c.args):
+                    (sets if kind == "set" else resets).append((f, c, c.args[ai]))
     chk.instances("C04.pair:set calls", len(sets), 1)
     # each of the three scoping constructs installs the action (directly or through a helper method)
-    setters = {f for f, c in sets}
+    setters = {f for f, c, _a in sets}
     for q in ("Action.run", "Action.context", "Action.__enter__"):
         g = ctx.func("_action", q)
         reach = {g}
@@ -104,33 +132,55 @@ def rule_pairs(chk):
                 good="sets the context variable (in %s)" % ", ".join(sorted(x.name for x in reach & setters)),
                 fail="%s does not make the action current" % q)
     matched_resets = set()
-    for f, c in sets:
+
+    def token_source(g, e):
+        """what a reset argument denotes: ("local", name) / ("attr", name), looking through one snapshot temporary `t = self.<attr>`"""
+        if isinstance(e, ast.Name):
+            vals = assigned_values(g, e.id)
+            if len(vals) == 1 and vals[0] is not None and common.is_self_attr(vals[0]) and e.id not in g.params:
+                return ("attr", vals[0].attr, e.id)
+            return ("local", e.id, None)
+        if common.is_self_attr(e):
+            return ("attr", e.attr, None)
+        return (None, None, None)
+    for f, c, arg in sets:
         cfg = ctx.cfg(f)
         node, mult = common.node_of_call(cfg, c)
         label = "%s:set" % f.fq
         where = chk.where(f, c.lineno)
         chk.need(node is not None, "set call not in CFG of %s" % f.fq)
         # C04.entered
-        argok = len(c.args) == 1 and isinstance(c.args[0], ast.Name) and c.args[0].id == "self" and f.cls is not None
+        argok = isinstance(arg, ast.Name) and arg.id == "self" and f.cls is not None
         chk.req(argok, "C04.entered", label, where, good="the value installed is the action itself (self)",
                 fail="the value installed by %s is not the action itself" % unparse(c))
         st = node.ast
         tok_local = tok_attr = None
+        attr_store = st
         if isinstance(st, ast.Assign) and st.value is c and len(st.targets) == 1:
             t = st.targets[0]
             if isinstance(t, ast.Name):
                 tok_local = t.id
             elif common.is_self_attr(t):
                 tok_attr = t.attr
+        if tok_local is not None and len(stores_to_name(f, tok_local)) == 1:
+            # `token = <set>; self.<attr> = token` is the attribute protocol written with a temporary
+            fwd = [n for n in iter_own_nodes(f.node) if isinstance(n, ast.Assign) and len(n.targets) == 1 and common.is_self_attr(n.targets[0])
+                   and isinstance(n.value, ast.Name) and n.value.id == tok_local]
+            uses_of_local = [n for n in iter_own_nodes(f.node) if isinstance(n, ast.Name) and n.id == tok_local and isinstance(n.ctx, ast.Load)]
+            if len(fwd) == 1 and len(uses_of_local) == 1:
+                fnode = [x for x in cfg.live if x.ast is fwd[0]]
+                starts = [s_ for s_, l in node.succ if l != "exc"]
+                if fnode and cfg.must_pass(starts, [cfg.exit], fnode, skip_labels=("exc",))[0]:
+                    tok_attr, tok_local, attr_store = fwd[0].targets[0].attr, None, fwd[0]
         if tok_local is not None:
             single = len(stores_to_name(f, tok_local)) == 1
             rnodes = []
             for n in cfg.live:
                 for c2, m2 in calls_in_node(n):
-                    if (f, c2) in [(ff, cc) for ff, cc in resets] and len(c2.args) == 1 and isinstance(c2.args[0], ast.Name) \
-                            and c2.args[0].id == tok_local:
-                        rnodes.append(n)
-                        matched_resets.add(id(c2))
+                    for ff, cc, aa in resets:
+                        if ff is f and cc is c2 and isinstance(aa, ast.Name) and aa.id == tok_local:
+                            rnodes.append(n)
+                            matched_resets.add(id(c2))
             starts = [s for s, l in node.succ if l != "exc"]
             ok, wit = cfg.must_pass(starts, [cfg.exit, cfg.raise_exit], rnodes)
             chk.req(single and bool(rnodes) and ok, "C04.pair", label, where,
@@ -148,11 +198,21 @@ def rule_pairs(chk):
                 continue
             xcfg = ctx.cfg(ex)
             rnodes = []
+            snapshot_bad = []
             for n in xcfg.live:
                 for c2, m2 in calls_in_node(n):
-                    if any(c2 is cc for ff, cc in resets) and len(c2.args) == 1 and common.is_self_attr(c2.args[0], tok_attr):
-                        rnodes.append(n)
-                        matched_resets.add(id(c2))
+                    for ff, cc, aa in resets:
+                        if ff is ex and cc is c2:
+                            kind, nm, tmp = token_source(ex, aa)
+                            if kind == "attr" and nm == tok_attr:
+                                rnodes.append(n)
+                                matched_resets.add(id(c2))
+                                if tmp is not None:
+                                    # the snapshot must be taken before the attribute is overwritten
+                                    snap = [x for x in xcfg.live if isinstance(x.ast, ast.Assign) and isinstance(x.ast.targets[0], ast.Name) and x.ast.targets[0].id == tmp]
+                                    wr = [x for x in xcfg.live if isinstance(x.ast, ast.Assign) and any(common.is_self_attr(t_, tok_attr) for t_ in x.ast.targets)]
+                                    if not snap or (wr and not xcfg.precedes(snap, wr)[0]):
+                                        snapshot_bad.append(tmp)
             ok1, wit = xcfg.must_pass([xcfg.entry], [xcfg.exit, xcfg.raise_exit], rnodes)
             # (whatever runs before the reset must not be able to leave __exit__ without it:
             #  that is exactly the must-pass query above, exceptional edges included)
@@ -167,7 +227,7 @@ def rule_pairs(chk):
                                 writers.append((m, n))
             bad_writers = []
             for m, n in writers:
-                if m is f and n is st:
+                if m is f and n is attr_store:
                     continue
                 if m is ex:
                     # allowed only after the reset
@@ -176,20 +236,21 @@ def rule_pairs(chk):
                         bad_writers.append((m, n))
                     continue
                 bad_writers.append((m, n))
-            chk.req(bool(rnodes) and ok1 and not early and not bad_writers, "C04.pair", label, where,
+            chk.req(bool(rnodes) and ok1 and not early and not bad_writers and not snapshot_bad, "C04.pair", label, where,
                     good="__exit__ resets with self.%s on every path to every exit (normal and exceptional)" % tok_attr,
                     fail=lambda: ("__exit__ has no reset(self.%s)" % tok_attr) if not rnodes else
                          ("a path through __exit__ skips the reset: %s" % xcfg.fmt_path(wit)) if not ok1 else
                          ("__exit__ does `%s` before restoring the previous action" % early[0].text()) if early else
+                         ("the token is read into %s after self.%s was overwritten" % (snapshot_bad[0], tok_attr)) if snapshot_bad else
                          "self.%s is also written by %s" % (tok_attr, bad_writers[0][0].fq),
                     sites=len(xcfg.live))
         else:
             chk.bad("C04.only", label, where,
                     "`%s`: the token of this set is dropped, so the previous action can never be restored" % unparse(st)[:80])
-    for f, c in resets:
+    for f, c, arg in resets:
         if id(c) not in matched_resets:
             chk.bad("C04.only", "%s:reset" % f.fq, chk.where(f, c.lineno),
-                    "reset(%s) is not paired with a set in the same scope/protocol" % (unparse(c.args[0]) if c.args else ""))
+                    "reset(%s) is not paired with a set in the same scope/protocol" % (unparse(arg) if arg is not None else ""))
     others = [(f, n, k) for f, n, k, c in uses if k in ("other", "rebind")]
     for f, n, k in others:
         chk.bad("C04.only", "%s:%s" % (f.fq, k), chk.where(f, n.lineno),
@@ -286,16 +347,24 @@ def rule_parent(chk):
     chk.req(bool(cac), "C04.parent", "log_message:parent-from-current-action", chk.where(lm),
             good="action = current_action()", fail="log_message does not obtain the action from current_action()")
     # the context-less arm builds a root action (empty level, fresh uuid) exactly when there is no current action
-    init_ = ctx.func("_action", "Action.__init__")
-    ctors = [(n, c) for n in cfgm.live for c, m in calls_in_node(n) if init_ in ctx.targets(lm, c)]
+    from .. import exprs as X
+    rs = c02.root_sites(ctx, lm)
+    ctors = [(n, c) for n in cfgm.live for c, m in calls_in_node(n) if any(c is r for r in rs)]
     okroot = len(ctors) == 1
     if okroot:
         n_, c_ = ctors[0]
-        lvl = c_.args[2] if len(c_.args) > 2 else None
-        okroot = isinstance(lvl, ast.Call) and ((lvl.keywords and isinstance(lvl.keywords[0].value, ast.List) and not lvl.keywords[0].value.elts)
-                                                or (lvl.args and isinstance(lvl.args[0], ast.List) and not lvl.args[0].elts))
-        g_ = [(unparse(t.exprs[0]), lab) for t, lab in cfgm.guards_of(n_) if t.kind == "test"]
-        okroot = okroot and any(" is None" in e and lab == "true" for e, lab in g_)
+        # taken exactly when current_action() returned None
+        cnames = {n.ast.targets[0].id for n, c, m in cac if isinstance(n.ast, ast.Assign) and n.ast.value is c and isinstance(n.ast.targets[0], ast.Name)}
+
+        def none_branch(e, lab):
+            e, lab = X.strip_not(e, lab)
+            op = X.compare_of(e, lambda x: isinstance(x, ast.Name) and x.id in cnames, lambda x: X.is_const(x, None))
+            if op in (ast.Is, ast.Eq):
+                return lab == "true"
+            if op in (ast.IsNot, ast.NotEq):
+                return lab == "false"
+            return False
+        okroot = any(t.kind == "test" and none_branch(t.exprs[0], lab) for t, lab in cfgm.guards_of(n_))
     chk.req(okroot, "C04.parent", "log_message:context-less-message-is-its-own-root", chk.where(lm),
             good="without a current action: Action(logger, uuid4, TaskLevel(level=[]), ...) -- a one-message task",
             fail="a message logged with no current action is not placed in a fresh root (empty level) of its own")
